@@ -882,6 +882,11 @@ CLAIMS["C03"]["text"] += (
     "traitcall_static_dispatch_store. The whole induction (20 node kinds, lists, arms, apply) is re-proved over the store-typed "
     "predicate (Lemmas/ValTy2*.lean, monotonicity of typing under extension); the reference-free theorem is kept as it was. The "
     "driver now evaluates the fragment with references on every real Core dump.")
+CLAIMS["C03"]["text"] += (
+    " Sixth pass: trait objects are typed values (ValTyR.VT.dyn: the packed value has a keyable type whose key the object carries); "
+    "toDyn at a keyable source type and dynCall of an object-safe method (objSafe) under the dispatch-table check implsOk are inside "
+    "the fragment of sem_preserves_types_store_partial (key_determines identifies the implementation's receiver type with the type "
+    "of the packed value).")
 CLAIMS["C07"]["note"] += (
     " Round 11: traitcall_static_dispatch (Props/C03.lean) proves, on the fragment of sem_preserves_types_partial, the typing "
     "invariant traitcall_commutes assumes (runtime key = key of the instantiated static type); ./check C07 also runs the "
